@@ -35,13 +35,15 @@ TECHNIQUE = (
     "oracle = the fitted input itself (reconstruction), the drawn score array itself (round trip), and the L2 norms of the public scores (normalized switches)"
 )
 RULE = (
-    "product of model in {EOF, ComplexEOF on complex data, HilbertEOF padding None/exp} x container {DataArray, Dataset, list[DataArray], list[DataArray, Dataset]} "
-    "x sample dims {1,2} x NaN mask {none, one feature, one sample} x center x standardize x use_coslat x weights x spectrum/scale, and of "
-    "{CPCCA alpha in {0,.25,.5,1}^2, MCA, CCA, RDA, ComplexCPCCA, ComplexMCA/CCA/RDA} x use_pca {off, all modes} x (standardize, use_coslat, weights) per field "
-    "x container x sample dims x NaN mask x field sizes {4|4, 6|4, 4|6, thorough: 6|4 with n=6}; n_modes = all (reconstruction) and 2 (round trip / switches only); "
-    "score arrays on training, new (longer, disjoint), short unsorted and length-one sample coordinates; thorough: provenance {fresh, refitted, deferred-then-computed, "
-    "deserialized}. The quick tier takes the stated sub-products (full flag product on DataArray, four flag corners elsewhere). "
-    "A case is non-trivial when all clauses applicable to it compared non-empty arrays"
+    "two complete layers. Algebra layer, on one DataArray (time, lat, lon): {EOF, ComplexEOF on complex data, HilbertEOF padding None/exp} x center x standardize x "
+    "use_coslat x weights (all 16), and CPCCA x alpha in {0,.25,.5,1}^2 x use_pca {off, all modes} x (standardize, use_coslat, weights) in {all off, all on} "
+    "(thorough: all 8, and per-field mixtures) plus MCA, CCA, RDA, ComplexCPCCA, ComplexMCA/CCA/RDA. Structure layer: container {DataArray, Dataset, list[DataArray], "
+    "thorough: list[DataArray, Dataset]} x sample dims {1, 2} x NaN mask {none, one feature, one sample} x stated flag corners x stated model configurations "
+    "(single: all four classes; cross: MCA, CPCCA(.5,.25), ComplexCPCCA(.25,.5), thorough: CCA). Further complete sub-products: truncated n_modes=2 (clauses ii, iii only), "
+    "degenerate spectra (rank_def; thorough: flat_pair, clustered, near_equal_var), scales 1e-8/1e8 (single-set), field sizes 6|4 and 4|6 (only the smaller field is "
+    "restorable), thorough: n=12, n=6 with 6 features (p > n-1) over the whole alpha grid, provenance {refitted, deferred-then-computed, deserialized} x structure layer. "
+    "Score arrays of clause (ii): sample coordinates {new longer disjoint, one length-one sample dimension} everywhere, {training, short unsorted} and one-sided cross-set calls "
+    "on the algebra layer (thorough: everywhere). A case is non-trivial when every clause applicable to it compared non-empty arrays and none fired"
 )
 ASSUMPTIONS = [
     "the numeric catalogue (fixed spectra/shapes/scales, orthogonal factors drawn from VERIF_SEED) stands for 'all inputs'",
@@ -49,6 +51,10 @@ ASSUMPTIONS = [
     "cross-set 'feature count' of a field is its number of valid (not fully-NaN) features; a fully-NaN sample is placed at the same label in both fields (C06 owns the other case)",
     "round trip on a fractionally whitened (alpha<1) cross-set model is demanded only for modes up to the numerical rank of the two fields "
     "(beyond it a score cannot be represented in data space: the whitener is a pseudo-inverse there)",
+    "tolerance 1e-9 relative (DESIGN 4.3); 1e-6 for reconstruction / round trip of a cross-set model that fractionally whitens (alpha<1) a field whose "
+    "covariance is numerically singular in the whitened space (rank-deficient data, p > n-1, or a zero-variance PC kept by n_pca_modes='all'): the pseudo-power's "
+    "cut-off at machine eps lets rounding grow by up to (s1/eps)^((1-alpha)/2) - conditioning, not a wrong formula (every mutant moves results by > 1e-2)",
+    "score arrays of clause (ii) are drawn at the magnitude of the model's own scores, so that the rounding of the mean that is added back stays below the tolerance",
     "normalized switches are compared on modes whose score norm exceeds 1e-9 of the largest one (a zero norm cannot be divided by)",
     "deferred provenance (compute=False on sample-wise chunked dask input, then compute()) only for real-valued models (complex data with dask is a "
     "documented refusal) and on the single DataArray (dask's svd refuses the per-piece chunked feature axis of Dataset / list inputs; two witnesses are tallied as refused)",
@@ -421,6 +427,11 @@ class Ctx:
     def __init__(self, case, base):
         self.case, self.V, self.base, self.sigs = case, [], base, set()
         self.done = []
+        self.maxerr = {}
+
+    def err(self, check, e):
+        if np.isfinite(e):
+            self.maxerr[check] = max(self.maxerr.get(check, 0.0), float(e))
 
     def bad(self, check, msg, **features):
         v = viol(check, self.case["model"], msg, **features, **_prov_feat(self.case))
@@ -446,9 +457,8 @@ class Ctx:
             return None
 
     def _raised(self, name, e):
-        if True:
-            self.bad("raised", "%s(...) raised %s: %s\n%s" % (name, type(e).__name__, e, "".join(traceback.format_tb(e.__traceback__)[-3:])),
-                     call=name, exc=type(e).__name__, at=_at(e), **self.base)
+        self.bad("raised", "%s(...) raised %s: %s\n%s" % (name, type(e).__name__, e, "".join(traceback.format_tb(e.__traceback__)[-3:])),
+                 call=name, exc=type(e).__name__, at=_at(e), **self.base)
 
 
 def make_single(case, k, compute=True):
@@ -470,7 +480,19 @@ def make_cross(case, k, compute=True):
     return getattr(xe.cross, case["model"])(**kw)
 
 
-def score_array(f, k_modes, variant, cplx, seed, salt):
+def score_magnitude(sc, f):
+    """typical magnitude of the model's own scores (so that drawn score arrays reconstruct to anomalies of the data's
+    magnitude; a score of order one on data of order 1e8 would drown in the rounding of the mean that is added back,
+    which DESIGN 4.3 does not count as a violation)."""
+    try:
+        v = np.abs(np.asarray(sc.values))
+        m = float(np.nanmax(v))
+        return m if np.isfinite(m) and m > 0 else f.scale
+    except Exception:  # noqa: BLE001
+        return f.scale
+
+
+def score_array(f, k_modes, variant, cplx, seed, salt, mag=1.0):
     """an arbitrary score array on the model's sample dimensions: values from the seed, coordinates per `variant`."""
     import xarray as xr
 
@@ -491,9 +513,10 @@ def score_array(f, k_modes, variant, cplx, seed, salt):
         raise ValueError(variant)
     shape = tuple(len(co[d]) for d in f.sdims) + (len(k_modes),)
     rng = np.random.default_rng([int(seed), 4242, salt, len(k_modes), ["train", "new", "short", "one"].index(variant)])
-    v = rng.standard_normal(shape) * 2.0
+    v = rng.standard_normal(shape)
     if cplx:
         v = v + 1j * rng.standard_normal(shape)
+    v = v * mag
     co = dict(co)
     co["mode"] = np.asarray(k_modes)
     return xr.DataArray(v, dims=f.sdims + ("mode",), coords=co, name="scores")
@@ -513,7 +536,7 @@ def valid_rows(f, valid_only):
     return np.arange(f.n)
 
 
-def check_reconstruction(cx, f, res, what, feats):
+def check_reconstruction(cx, f, res, what, feats, tol=TOL):
     """clause (i): `res` must equal the fitted object of field f at every valid label."""
     n_cmp = 0
     for pc in f.pieces:
@@ -527,18 +550,19 @@ def check_reconstruction(cx, f, res, what, feats):
         want = pc["M"][valid_rows(f, True)]
         mask = np.isfinite(want)
         e = relerr(got, want, mask, scale=f.scale)
+        cx.err("reconstruction", e)
         n_cmp += int(mask.sum())
-        if not e <= TOL:
+        if not e <= tol:
             # classify: exactly the sample mean is missing?
             mu = np.nanmean(pc["M"], axis=0, keepdims=True)
             e_mu = relerr(got + mu, want, mask, scale=f.scale)
-            lost = "mean" if e_mu <= TOL else "other"
+            lost = "mean" if e_mu <= tol else "other"
             cx.bad("reconstruction", "%s, piece %s: max |reconstructed - fitted| / max|fitted| = %.3e (adding the sample mean back: %.3e)" % (what, pc["path"], e, e_mu),
                    lost=lost, **feats)
     return n_cmp
 
 
-def check_like(cx, check, got, want_da, f, what, feats, restrict_modes=None):
+def check_like(cx, check, got, want_da, f, what, feats, restrict_modes=None, tol=TOL):
     """label-keyed comparison of a score-like DataArray with the reference DataArray `want_da` (dims sample + mode)."""
     modes = np.asarray(want_da.mode.values if restrict_modes is None else restrict_modes)
     lab = {d: want_da.coords[d].values for d in f.sdims}
@@ -555,7 +579,8 @@ def check_like(cx, check, got, want_da, f, what, feats, restrict_modes=None):
     w = values(want_da, lab)
     mask = np.isfinite(w)
     e = relerr(g, w, mask)
-    if not e <= 10 * TOL:
+    cx.err(check, e)
+    if not e <= 10 * tol:
         cx.bad(check, "%s: max |returned - expected| / max|expected| = %.3e" % (what, e), **feats)
     return int(mask.sum())
 
@@ -669,9 +694,10 @@ def run_single(case, seed):
 
     # ---- (ii) transform(inverse_transform(s)) == s
     r_new = None
+    mag = score_magnitude(sc, f)
     if not hilbert:
         for var in variants_of(case):
-            s = score_array(f, modes, var, case["cplx"], seed, 1)
+            s = score_array(f, modes, var, case["cplx"], seed, 1, mag)
             r = cx.call("inverse_transform", m.inverse_transform, s)
             if r is None:
                 continue
@@ -719,7 +745,7 @@ def run_single(case, seed):
                         ncmp["iii"] += check_like(cx, "normalized_transform", t1 * cda, t0 if r_new is not None else _valid_part(f, t0), f, "transform(X, normalized=True) * ||scores||", feats, restrict_modes=keep)
                     except StructErr as e:
                         cx.bad("normalized_transform_structure", str(e), **feats)
-            s = score_array(f, keep, "new", case["cplx"], seed, 2)
+            s = score_array(f, keep, "new", case["cplx"], seed, 2, mag)
             ra = cx.call("inverse_transform", m.inverse_transform, s, normalized=True)
             rb = cx.call("inverse_transform", m.inverse_transform, s * cda.sel(mode=keep), normalized=False)
             if ra is not None and rb is not None:
@@ -729,7 +755,7 @@ def run_single(case, seed):
     need = (["i"] if full else []) + ([] if hilbert else ["ii"]) + ["iii"]
     nontriv = not cx.V and all(x in cx.done and ncmp[x] > 0 for x in need)
     return dict(violations=cx.V, outcome="violation" if cx.V else "ok", nontrivial=nontriv,
-                info=dict(k=int(k), clauses="".join(cx.done), compared=ncmp, restored=["S"] if "i" in cx.done else [], prov=case["prov"]))
+                info=dict(k=int(k), clauses="".join(cx.done), compared=ncmp, restored=["S"] if "i" in cx.done else [], prov=case["prov"], maxerr=cx.maxerr))
 
 
 def _valid_part(f, t):
@@ -756,6 +782,7 @@ def _check_components_switch(cx, f, cp0, cp1, c, modes, keep, feats, tag=""):
         mask = np.isfinite(a1)
         e = relerr(a1 * c[idx], a0, mask & np.isfinite(a0)) if np.array_equal(np.isfinite(a0), mask) else np.inf
         n += int(mask.sum())
+        cx.err("normalized_components", e)
         if not e <= 10 * TOL:
             cx.bad("normalized_components", "components%s(normalized=False) vs components(normalized=True) * ||scores||, piece %s: rel. deviation %.3e" % (tag, pc["path"], e), **feats)
     return n
@@ -776,6 +803,7 @@ def _check_same_data(cx, f, ra, rb, s, check, what, feats):
         mask = np.isfinite(b)
         e = relerr(a, b, mask & np.isfinite(a)) if np.array_equal(np.isfinite(a), mask) else np.inf
         n += int(mask.sum())
+        cx.err(check, e)
         if not e <= 10 * TOL:
             cx.bad(check, "%s, piece %s: rel. deviation %.3e" % (what, pc["path"], e), **feats)
     return n
@@ -807,6 +835,16 @@ def run_cross(case, seed):
     ncmp = {"i": 0, "ii": 0, "iii": 0}
     restored = []
     fields = (("X", fx), ("Y", fy))
+    # accuracy-aware tolerance: a field whose covariance is numerically singular in the space that gets whitened
+    # (rank-deficient data, p > n-1, or a zero-variance principal component kept by n_pca_modes='all') is whitened
+    # with a pseudo-power whose cut-off sits at machine eps; rounding is then amplified by up to (s1/eps)^((1-alpha)/2)
+    rk = [numeric_rank(fx), numeric_rank(fy)]
+    singular = False
+    for a_, f_, r_ in zip(alpha, (fx, fy), rk):
+        dim_w = min(f_.n_valid, f_.P_valid) if case["pca"] else f_.P_valid
+        if a_ < 1.0 and r_ < dim_w:
+            singular = True
+    tol = 1e-6 if singular else TOL
 
     # ---- (i)
     sc = cx.call("scores", m.scores)
@@ -820,18 +858,19 @@ def run_cross(case, seed):
                 if not isinstance(rec, (list, tuple)) or len(rec) != 2:
                     cx.bad("reconstruction_structure", "inverse_transform(X, Y) returned %s" % type(rec).__name__, field=nm, **feats0)
                 else:
-                    ncmp["i"] += check_reconstruction(cx, f, rec[i], "inverse_transform(*scores())[%s]" % nm, dict(feats0, field=nm))
+                    ncmp["i"] += check_reconstruction(cx, f, rec[i], "inverse_transform(*scores())[%s]" % nm, dict(feats0, field=nm), tol=tol)
         if rec is not None:
             cx.done.append("i")
 
     # ---- (ii)
     rmodes = modes
     if min(alpha) < 1.0:
-        rmodes = modes[: max(1, min(k, numeric_rank(fx), numeric_rank(fy)))]
+        rmodes = modes[: max(1, min(k, rk[0], rk[1]))]
+    mags = [score_magnitude(sc[i], f) if isinstance(sc, (list, tuple)) and len(sc) == 2 else f.scale for i, (_, f) in enumerate(fields)]
     r_new = None
     for var in variants_of(case):
-        s1 = score_array(fx, rmodes, var, case["cplx"], seed, 11)
-        s2 = score_array(fy, rmodes, var, case["cplx"], seed, 12)
+        s1 = score_array(fx, rmodes, var, case["cplx"], seed, 11, mags[0])
+        s2 = score_array(fy, rmodes, var, case["cplx"], seed, 12, mags[1])
         r = cx.call("inverse_transform", m.inverse_transform, s1, s2)
         if r is None:
             continue
@@ -849,7 +888,7 @@ def run_cross(case, seed):
                 cx.bad("roundtrip_structure", "transform(X, Y) returned %s" % type(t).__name__, **feats0)
             else:
                 for i, ((nm, f), s) in enumerate(zip(fields, (s1, s2))):
-                    ncmp["ii"] += check_like(cx, "roundtrip", t[i], s, f, "transform(inverse_transform(s))[%s], s on '%s' sample coordinates" % (nm, var), dict(feats0, field=nm), restrict_modes=rmodes)
+                    ncmp["ii"] += check_like(cx, "roundtrip", t[i], s, f, "transform(inverse_transform(s))[%s], s on '%s' sample coordinates" % (nm, var), dict(feats0, field=nm), restrict_modes=rmodes, tol=tol)
                 if "ii" not in cx.done:
                     cx.done.append("ii")
         if var == "new" and "train" in variants_of(case):  # one-sided calls
@@ -860,7 +899,7 @@ def run_cross(case, seed):
                     continue
                 t1 = cx.call("transform", m.transform, **{nm: r1})
                 if t1 is not None:
-                    ncmp["ii"] += check_like(cx, "roundtrip", t1, s, f, "transform(%s=inverse_transform(%s=s))" % (nm, nm), dict(feats0, field=nm), restrict_modes=rmodes)
+                    ncmp["ii"] += check_like(cx, "roundtrip", t1, s, f, "transform(%s=inverse_transform(%s=s))" % (nm, nm), dict(feats0, field=nm), restrict_modes=rmodes, tol=tol)
 
     # ---- (iii)
     sc0 = cx.call("scores", m.scores, normalized=False)
@@ -897,7 +936,7 @@ def run_cross(case, seed):
     need = (["i"] if full and restored else []) + ["ii", "iii"]
     nontriv = not cx.V and all(x in cx.done and ncmp[x] > 0 for x in need)
     return dict(violations=cx.V, outcome="violation" if cx.V else "ok", nontrivial=nontriv,
-                info=dict(k=int(k), clauses="".join(cx.done), compared=ncmp, restored=restored, alpha=alpha, rmodes=int(len(rmodes)), prov=case["prov"]))
+                info=dict(k=int(k), clauses="".join(cx.done), compared=ncmp, restored=restored, alpha=alpha, rmodes=int(len(rmodes)), prov=case["prov"], maxerr=cx.maxerr, singular_whitening=bool(singular)))
 
 
 # ----------------------------------------------------------------------------- coverage summary
@@ -917,7 +956,19 @@ def finalize(cases_, results, tier, seed):
                     provs[c["prov"]] += 1
         for f in info.get("restored", []):
             restored[f] += 1
+    worst, worst_sing, n_sing = {}, {}, 0
+    for r in results:
+        info = r.get("info") or {}
+        n_sing += bool(info.get("singular_whitening"))
+        if r.get("violations"):
+            continue
+        w = worst_sing if info.get("singular_whitening") else worst
+        for k, e in (info.get("maxerr") or {}).items():
+            w[k] = max(w.get(k, 0.0), e)
     return [], dict(
+        largest_relative_deviation_in_passing_cases={k: float("%.3g" % v) for k, v in sorted(worst.items())},
+        largest_relative_deviation_in_passing_cases_with_singular_whitening={k: float("%.3g" % v) for k, v in sorted(worst_sing.items())},
+        cases_with_singular_whitening=n_sing,
         clause_cases_compared={"i_reconstruction": ncase["i"], "ii_roundtrip": ncase["ii"], "iii_normalized_switches": ncase["iii"]},
         clause_numbers_compared={"i_reconstruction": nnum["i"], "ii_roundtrip": nnum["ii"], "iii_normalized_switches": nnum["iii"]},
         fields_checked_for_reconstruction=dict(restored),
